@@ -394,7 +394,8 @@ ReadLine ==
                               /\ UNCHANGED <<seen, nout, printed>>
                               /\ steps' = IF mode \notin {"incr", "follow"} THEN steps
                                            ELSE IF u[1] # "ok" THEN Append(steps, Out(<<>>, u[1]))
-                                           ELSE IF ~u[3] THEN Append(steps, Out(<<>>, "none"))     \* no row passed: nothing is shown
+                                           \* no row passed: nothing new is shown (the step carries the current table: a driver that re-shows it shows the same)
+                                           ELSE IF ~u[3] THEN Append(steps, Out(EngTableOf(u[2]).recs, "none"))
                                            ELSE Append(steps, EngTableOf(u[2]))
   /\ UNCHANGED <<cvars, ji, jidx>>
 
